@@ -10,6 +10,8 @@ import (
 	"fmt"
 
 	"gitlab.com/gomidi/midi/v2"
+	cc "gitlab.com/gomidi/midi/v2/internal/verifh/conccases"
+	cp "gitlab.com/gomidi/midi/v2/internal/verifh/concpairs"
 	"gitlab.com/gomidi/midi/v2/internal/verifh/engine"
 	"gitlab.com/gomidi/midi/v2/internal/verifh/refsmf"
 	sp "gitlab.com/gomidi/midi/v2/internal/verifh/smfspace"
@@ -302,6 +304,9 @@ func sortStrings(a []string) {
 func main() {
 	ctx = engine.Start("C16", "model_checking")
 	if ctx.ReplayPath != "" {
+		if cp.Replay(ctx, ctx.LoadReplay(), "convert", cc.Convert()) {
+			ctx.Finish("replay")
+		}
 		replay()
 		return
 	}
@@ -329,6 +334,10 @@ func main() {
 			}
 		}
 	}
+	ctx.Jobs("concurrent", 1, func(int) {
+		cp.Litmus(ctx)
+		cp.Check(ctx, "convert", cc.Convert())
+	})
 	ctx.Jobs("search", len(jobs), func(j int) { sp.RunPlanCfgShard(ctx, jobs[j].p, jobs[j].cfg, jobs[j].op, check) })
 	ctx.Jobs("dense", 1, func(j int) { dense() })
 	ctx.Set("traces_validated_against_impl", ctx.GetInt("transitions"))
